@@ -238,6 +238,8 @@ def tasks(ctx):
     ts.append(Task(ac.A + "EndMachineCycle[outputs]", ac.A + "EndMachineCycle", variant="outputs", overrides=both, keep=keep_labels({"clock", "samples", "untriggered", "ok"})))
     ts.append(Task(ac.A + "EndMachineCycle[no-outputs]", ac.A + "EndMachineCycle", variant="no-outputs", overrides=ac.OV, keep=keep_labels({"clock", "samples", "untriggered", "ok"})))
     ts.append(Task(ac.A + "WriteNR52", ac.A + "WriteNR52", overrides=ac.OV, keep=keep_labels({"clock"}, kinds=("requires",))))
+    # audio.EndMachineCycle above uses tickClock through its contract: one clock, one sample per multiple of 95 - discharged here
+    ts.append(Task(ac.A + "tickClock[outputs]", ac.A + "tickClock", variant="outputs", overrides=both, keep=keep_labels({"ticks", "sample", "sequencer"}, kinds=("requires",))))
     ts.append(Task("(*oam.OAM).TickDMA", "(*oam.OAM).TickDMA", args=pc.tickdma_args, keep=keep_labels({"idle", "setup", "first", "copy", "last", "ok"})))
     # the machine that runs is the one gameboy.New builds: one object per component, all references consistent
     ts.append(LemmaTask("lemma:power-on", lambda c, e, ce: wr.power_on(c, e, ce, invariants=False), ["gameboy.New", "memory.New", "cpu.New", "ppu.New", "audio.New"]))
